@@ -329,9 +329,7 @@ func (s *shadowState) learn(v *V, b U256) {
 		old, ok := s.cfg.Known[v.S.Leaf]
 		if !ok || b.Cmp(old) < 0 {
 			if cur, ok2 := s.cfg.Learned[v.S.Leaf]; !ok2 || b.Cmp(cur) < 0 {
-				if !ok2 {
-					s.cfg.Report.Changed++
-				}
+				s.cfg.Report.Changed++
 				s.cfg.Learned[v.S.Leaf] = b
 			}
 		}
@@ -473,7 +471,10 @@ func (s *shadowState) finish() {
 			s.finding("output_unbounded", po.site, fmt.Sprintf("%s output %d never receives a width", po.hint, po.idx))
 			continue
 		}
-		if po.v.S.Hon.Cmp(adv) > 0 {
+		// completeness is judged for quotients and limbs only: a remainder / inverse may
+		// legitimately be narrowed further by a later semantic check (e.g. proof of work).
+		judgeHon := po.hint == "SplitLimbsHint" || ((po.hint == "MulAddHint" || po.hint == "ReduceHint") && po.idx == 0)
+		if judgeHon && po.v.S.Hon.Cmp(adv) > 0 {
 			s.finding("honest_overflow", po.site, fmt.Sprintf("%s output %d: honest bound %d bits exceeds the enforced bound %d bits", po.hint, po.idx, po.v.S.Hon.BitLen(), adv.BitLen()))
 		}
 	}
